@@ -606,12 +606,12 @@ func (s *CommitStateDB) ForEachStorage(addr ethcmn.Address, cb func(key, value e
 		key := ethcmn.BytesToHash(keyD)
 		value := ethcmn.BytesToHash(valueD)
 
+		// the callback returns false to stop the iteration (as in go-ethereum)
 		if idx, dirty := so.keyToDirtyStorageIndex[key]; dirty {
-			// check if iteration stops
-			if cb(key, ethcmn.HexToHash(so.dirtyStorage[idx].Value)) {
+			if !cb(key, ethcmn.HexToHash(so.dirtyStorage[idx].Value)) {
 				return true
 			}
-		} else if cb(key, value) {
+		} else if !cb(key, value) {
 			return true
 		}
 		return false
